@@ -242,6 +242,90 @@ def rustc_parses(d):
     return p.returncode == 0 and 'error' not in p.stderr
 
 
+def extra_rustc_parse(nq, nt):
+    """C16: syn is more lenient than rustc.  The expansions of generated cases (and of the external corpus) are handed to
+    rustc's own parser, many at a time (one `mod` per case): everything the expander emits for an input that rustc parses
+    must parse as items."""
+    import subprocess
+
+    def chunk(args):
+        tag, cmd = args
+        base = f'{vlib.WORK}/fuzz/parse_{tag}'
+        cases = subprocess.run(cmd + f' > {base}.cases', shell=True, capture_output=True, text=True, env=vlib.ENV)
+        r = subprocess.run([vlib.XCHECK, 'raw', base + '.cases'], capture_output=True, text=True, env=vlib.ENV)
+        outs = r.stdout.splitlines()
+        inputs = []
+        cur = {}
+        for line in open(base + '.cases'):
+            if line.startswith('CASE '):
+                cur = dict(id=line[5:].strip(), args='')
+            elif line.startswith('ENTRY '):
+                cur['entry'] = line[6:].strip()
+            elif line.startswith('ARGS'):
+                cur['args'] = line[4:].strip()
+            elif line.startswith('ITEM '):
+                cur['item'] = line[5:].strip()
+            elif line.startswith('END'):
+                inputs.append(cur)
+        n = min(len(outs), len(inputs))
+
+        def parses(text, path):
+            open(path, 'w').write(text)
+            p = subprocess.run(['rustc', '+nightly', '-Zparse-crate-root-only', '--edition', '2021', '--crate-type', 'lib', path],
+                               capture_output=True, text=True, env=vlib.ENV)
+            return p.returncode == 0 and 'error' not in p.stderr, p.stderr[-1500:]
+        idx = [i for i in range(n) if outs[i] and not outs[i].startswith('<')]
+        bad = []
+
+        def search(ix):
+            if not ix:
+                return
+            ok, err = parses('\n'.join(f'mod c{i} {{ {outs[i]} }}' for i in ix) + '\n', f'{base}.rs')
+            if ok:
+                return
+            if len(ix) == 1:
+                i = ix[0]
+                # the input itself must be something rustc parses
+                c = inputs[i]
+                src = (f'#[derive_ex({c["args"]})] ' if c.get('entry') == 'attr' else '') + c.get('item', '')
+                okin, _ = parses(src + '\n', f'{base}.in.rs')
+                if okin:
+                    bad.append(dict(case=c.get('id'), entry=c.get('entry'), args=c.get('args'), item=c.get('item'),
+                                    expansion=outs[i][:3000], rustc=err))
+                return
+            h = len(ix) // 2
+            search(ix[:h])
+            if len(bad) < 3:
+                search(ix[h:])
+        search(idx)
+        return len(idx), bad
+
+    def run(prop, tier, seed, violation, known, known_hit, notes):
+        import concurrent.futures as cf
+        n = nq if tier == 'quick' else nt
+        os.makedirs(f'{vlib.WORK}/fuzz', exist_ok=True)
+        vlib.ext_corpus()
+        per = max(50, n // 14)
+        jobs = []
+        for k, fam in enumerate(['wild', 'all', 'bounds', 'ops', 'impl', 'strip', 'basic', 'cmpN', 'wild', 'all', 'bounds', 'ops', 'impl', 'strip']):
+            jobs.append((f'{fam}{k}', f'{vlib.DRV} gen {fam} {seed + 40 + k} {k * per} {per}'))
+        jobs.append(('ext', f'({vlib.XCHECK} ser {vlib.WORK}/l1/corpus.tsv) 2>/dev/null | {vlib.DRV} ext'))
+        jobs.append(('mut', f'({vlib.XCHECK} mutants {vlib.WORK}/l1/corpus.tsv {seed + 77} {max(2000, n)}) 2>/dev/null | {vlib.DRV} ext'))
+        total = 0
+        nbad = 0
+        with cf.ThreadPoolExecutor(vlib.NPROC) as ex:
+            for cnt, bad in ex.map(chunk, jobs):
+                total += cnt
+                for b in bad:
+                    nbad += 1
+                    if nbad <= 5:
+                        violation(f'rustc-parse-{nbad}', dict(
+                            what="the expansion of an input that rustc's parser accepts does not parse as Rust items (syn, which the token comparison uses, is more lenient than rustc)",
+                            property=prop, **b))
+        return {'rustc_parser': dict(expansions_parsed=total, rejected=nbad, seed=seed)}
+    return run
+
+
 def extra_fuzz(nq, nt):
     """C16 support: structure-aware mutation of every item of the test-suite / documentation plus generator output,
     through both entry points; panics, non-determinism and output that is not a sequence of items are violations"""
@@ -564,7 +648,7 @@ PROPS.update({
         l1=[('wild', 5000, 200000), ('strip', 2000, 50000), ('impl', 2000, 50000), ('cmpWild', 2000, 50000), ('other', 500, 5000), ('ext', 24000, 640000)],
         labels=r'.',
         kinds=('panic', 'nondet', 'parse', 'roundtrip'),
-        extra=extras(extra_fuzz(160000, 8000000), extra_rustc(l2gen.gen_seq_case, 160, 4000)),
+        extra=extras(extra_fuzz(160000, 8000000), extra_rustc(l2gen.gen_seq_case, 160, 4000), extra_rustc_parse(6000, 120000)),
         level_text='partial: totality and determinism are proved of the Lean model (total functions, accepted by the termination checker) and transferred to the implementation only through the L1 runs (catch_unwind around every expansion, every case expanded twice and compared, output re-parsed as items) and the mutation fuzzer; a Lean model cannot exhibit a Rust panic on inputs outside its input language',
     ),
     'C18': dict(
